@@ -48,6 +48,25 @@ pub fn dump_bodies<'tcx>(tcx: TyCtxt<'tcx>) -> (J, J) {
             );
             let sig = tcx.fn_sig(ldid.to_def_id()).instantiate_identity().skip_norm_wip();
             b.put("sig", J::s(format!("{}", sig)));
+            // generic parameters (parents first), in the order generic arguments are listed at call sites
+            {
+                let mut names: Vec<J> = Vec::new();
+                let mut chain = Vec::new();
+                let mut cur = Some(ldid.to_def_id());
+                while let Some(d) = cur {
+                    let g = tcx.generics_of(d);
+                    chain.push(g);
+                    cur = g.parent;
+                }
+                for g in chain.iter().rev() {
+                    for p in g.own_params.iter() {
+                        if !matches!(p.kind, ty::GenericParamDefKind::Lifetime) {
+                            names.push(J::s(p.name.to_string()));
+                        }
+                    }
+                }
+                b.put("generics", J::Arr(names));
+            }
             b.put(
                 "unsafe",
                 J::Bool(sig.safety().is_unsafe()),
